@@ -38,6 +38,10 @@ pub enum Edit {
     /// generated project: every wall / window / construction block that belongs to the SPACE
     /// whose header is at `line` is removed (the space itself stays)
     SpaceEmptied { line: usize },
+    /// generated project: the definition whose header is at `line` and everything it refers to
+    /// by name is copied under new names (a subgraph nobody uses), then `inner` damages the
+    /// copy (`inner` addresses lines of the text after the copy was inserted)
+    CloneDamaged { line: usize, inner: Box<Edit> },
     /// C02: definition header renamed (references untouched)
     DefRenamed { line: usize },
     /// C02: definition block removed
@@ -63,6 +67,7 @@ impl Edit {
             Edit::CrlfFlipLine { .. } | Edit::CrlfFlipFile => "disk.crlf_flip",
             Edit::ValueSwap { .. } => "proj.option_value",
             Edit::SpaceEmptied { .. } => "proj.space_emptied",
+            Edit::CloneDamaged { .. } => "proj.unused_copy_damaged",
             Edit::DefRenamed { .. } => "disk.def_renamed",
             Edit::DefRemoved { .. } => "disk.def_removed",
             Edit::RefRenamed { .. } => "disk.ref_renamed",
@@ -84,6 +89,7 @@ impl Edit {
             | Edit::CrlfFlipLine { line }
             | Edit::ValueSwap { line, .. }
             | Edit::SpaceEmptied { line }
+            | Edit::CloneDamaged { line, .. }
             | Edit::DefRenamed { line }
             | Edit::DefRemoved { line }
             | Edit::RefRenamed { line, .. } => Some(*line),
@@ -562,6 +568,10 @@ pub fn apply(text: &str, e: &Edit) -> Option<String> {
             v[*line] = &newl;
             Some(join(&v))
         }
+        Edit::CloneDamaged { line, inner } => {
+            let (t, _) = clone_subgraph(text, *line)?;
+            apply(&t, inner)
+        }
         Edit::SpaceEmptied { line } => {
             get(*line)?;
             let blocks = scan_blocks(&lines);
@@ -603,6 +613,98 @@ pub fn apply(text: &str, e: &Edit) -> Option<String> {
             }
         }
     }
+}
+
+pub const CLONE_SUFFIX: &str = "_VRFCOPIA";
+
+/// Copy the definition block whose header is at `root_line`, and (recursively) every by-name
+/// definition it refers to, under new names; the copies refer to each other, nothing else
+/// refers to them.  Returns the new text and the line range of the inserted copies.
+pub fn clone_subgraph(text: &str, root_line: usize) -> Option<(String, (usize, usize))> {
+    let lines = split_lines(text);
+    let blocks = scan_blocks(&lines);
+    let root = blocks.iter().position(|b| b.start == root_line)?;
+    let by_name = |n: &str| -> Vec<usize> {
+        blocks
+            .iter()
+            .enumerate()
+            .filter(|(_, b)| b.name == n && DEF_TYPES.contains(&b.btype.as_str()) && b.btype != "SPACE" && b.btype != "FLOOR" && b.btype != "POLYGON")
+            .map(|(i, _)| i)
+            .collect()
+    };
+    let refs_of = |bi: usize| -> Vec<String> {
+        let b = &blocks[bi];
+        let mut out = vec![];
+        let mut in_list = false;
+        for i in b.start + 1..b.end {
+            let l = lines[i];
+            let is_ref = if in_list {
+                true
+            } else {
+                attr_key(l).map(|k| is_ref_attr(&k)).unwrap_or(false)
+            };
+            let t = l.trim();
+            if is_ref {
+                let eq = if in_list { 0 } else { l.find('=').unwrap_or(0) };
+                for (s_, e_) in quoted_spans(l) {
+                    if s_ > eq {
+                        out.push(l[s_..e_].to_string());
+                    }
+                }
+                let v = if in_list { t } else { t.split_once('=').map(|x| x.1.trim()).unwrap_or("") };
+                if !in_list && v.starts_with('(') && !v.ends_with(')') {
+                    in_list = true;
+                } else if in_list && t.ends_with(')') {
+                    in_list = false;
+                }
+            }
+        }
+        out
+    };
+    // closure of the root under "refers to by name"
+    let mut set: Vec<usize> = vec![root];
+    let mut names: Vec<String> = vec![blocks[root].name.clone()];
+    let mut k = 0;
+    while k < set.len() && set.len() < 200 {
+        for n in refs_of(set[k]) {
+            for bi in by_name(&n) {
+                if !set.contains(&bi) {
+                    set.push(bi);
+                    if !names.contains(&n) {
+                        names.push(n.clone());
+                    }
+                }
+            }
+        }
+        k += 1;
+    }
+    let mut copies: Vec<String> = vec![];
+    let mut sorted = set.clone();
+    sorted.sort();
+    for bi in sorted {
+        let b = &blocks[bi];
+        for i in b.start..=b.end {
+            let l = lines[i];
+            let mut nl = String::new();
+            let mut pos = 0;
+            for (s_, e_) in quoted_spans(l) {
+                nl.push_str(&l[pos..e_]);
+                if names.iter().any(|n| n == &l[s_..e_]) {
+                    nl.push_str(CLONE_SUFFIX);
+                }
+                pos = e_;
+            }
+            nl.push_str(&l[pos..]);
+            copies.push(nl);
+        }
+    }
+    let insert_at = blocks[root].end + 1;
+    let mut out: Vec<String> = lines[..insert_at].iter().map(|s| s.to_string()).collect();
+    let first = out.len();
+    out.extend(copies);
+    let last = out.len() - 1;
+    out.extend(lines[insert_at..].iter().map(|s| s.to_string()));
+    Some((out.join("\n"), (first, last)))
 }
 
 /// A C19 variant with its stratification cell.
